@@ -903,7 +903,7 @@ phylip_check_sequential_unknown(ESL_BUFFER *bf, int *ret_namewidth)
     {
       while ( (status = esl_buffer_GetLine(bf, &p, &n)) == eslOK  && esl_memspn(p, n, " \t") == n) ;
       if (status != eslOK) { status = eslFAIL; goto ERROR; }
-      if ( strchr(eslMSAFILE_PHYLIP_LEGALSYMS, p[w])  == NULL)  { status = eslFAIL; goto ERROR; }
+      if (n <= w || strchr(eslMSAFILE_PHYLIP_LEGALSYMS, p[w])  == NULL)  { status = eslFAIL; goto ERROR; }  /* a line too short to hold a name of width <w> plus a residue isn't consistent with <w> */
       for (i = 0; i < w; i++) 
 	if (! isspace(p[i])) break;
       if ( i == w) { status = eslFAIL; goto ERROR; }
